@@ -331,6 +331,39 @@ def wl_local(ctx, P, tz, rng, kw, ignoretz):
         ctx.violation('zone-resolution', case, '; '.join(bad))
 
 
+def wl_tz_switch(ctx, P, tz):
+    """The process TZ changes between calls (time.tzset): a local zone name must be resolved against the zone in force at
+    the time of the call, also by a parser object that has resolved local names before (no state carried across calls)."""
+    import os
+    from vf import tzmodels as TM
+    old = os.environ.get('TZ')
+    inst = P.parser()
+    seq = ['CST6CDT,M3.2.0,M11.1.0', 'CST5CDT,M3.2.0/0,M11.1.0/1', 'IST-5:30', 'IST-2', 'EST5EDT,M3.2.0,M11.1.0', 'EST-10EDT,M10.1.0,M4.1.0/3',
+           'CST6CDT,M3.2.0,M11.1.0', 'WET0WEST,M3.5.0/1,M10.5.0', 'WET-1WEST,M3.5.0/1,M10.5.0']
+    try:
+        for s in seq:
+            TM.set_process_tz(s)
+            std = time.tzname[0]
+            off = -time.timezone
+            text = '2020-01-15 12:00 ' + std
+            if time.localtime(1579089600).tm_isdst:       # mid-January is summer for the southern-order settings
+                off = -time.altzone
+                text = '2020-01-15 12:00 ' + time.tzname[1]
+            for how, f in (('module', P.parse), ('instance', inst.parse)):
+                r = call(f, text)
+                ctx.ev()
+                ctx.count('tz_switch_calls')
+                ctx.distinct('tz-switch|%s|%s' % (s, how))
+                case = {'workload': 'tz-switch', 'TZ': s, 'text': text, 'via': how, 'sequence': seq}
+                if r[0] != 'ok':
+                    ctx.violation('zone-raised', case, repr(r[1]))
+                elif r[1].tzinfo is None or r[1].utcoffset() != D.timedelta(seconds=off):
+                    ctx.violation('zone-resolution', case, 'after switching the process TZ to %s, %r resolved to offset %r, the zone in force says %d s'
+                                  % (s, text, r[1].utcoffset(), off))
+    finally:
+        TM.set_process_tz(old)
+
+
 def in_order_substrings(parts, text):
     # the lexer reports every whitespace character as ' ' and drops NULs: compare modulo that normalisation
     text = ''.join(' ' if c.isspace() else c for c in text if c != '\x00')
@@ -503,6 +536,7 @@ def run(ctx):
             ctx.count('directed_default')
             if r[0] != 'ok' or r[1] != exp:
                 ctx.violation('default-fill', {'workload': 'default', 'text': text, 'default': repr(default), 'expected': repr(exp)}, repr(r[1]))
+        wl_tz_switch(ctx, P, tz)
     finally:
         uninstall()
 
@@ -515,7 +549,7 @@ def floors(agg, tier):
     for k in ('default_day_clipped', 'default_weekday_moves', 'zone_dict-int', 'zone_dict-tzinfo', 'zone_dict-str', 'zone_callable',
               'zone_callable-offset', 'zone_dict-beats-utc', 'zone_numeric', 'zone_zero', 'zone_utc-name', 'zone_gmt+h', 'zone_name+h',
               'zone_unknown', 'zone_local-std', 'fuzzy_sentences', 'ampm_lookalike_hour>12', 'ampm_lookalike_flag-set',
-              'ampm_lookalike_no-hour', 'relation_accepted'):
+              'ampm_lookalike_no-hour', 'relation_accepted', 'tz_switch_calls'):
         if c.get(k, 0) < 40:
             out.append('%s only %d' % (k, c.get(k, 0)))
     for z in ('UTC', 'EST', 'GMT', 'IST'):
